@@ -200,6 +200,26 @@ def bytesHolesList : List V → Bool
   | v :: r => bytesHoles v || bytesHolesList r
 end
 
+/- an item or entry tuple directly inside an item or entry tuple (also: as an array item or a dictionary key or
+value): `ArrayItemTuple.Hash`/`DictEntryTuple.Hash` thread the seed through unfinished, so differently nested
+tuples hash alike under every seed (KF-seed-threaded-hash) -/
+def isThreadTup : V → Bool
+  | .tup [("@", _), ("@item", _)] => true
+  | .tup [("@", _), ("@value", _)] => true
+  | _ => false
+mutual
+def threaded : V → Bool
+  | .num _ => false
+  | .tup as => (isThreadTup (.tup as) && as.any (fun p => isThreadTup p.2)) || threadedAttrs as
+  | .set xs => threadedList xs
+def threadedAttrs : List (String × V) → Bool
+  | [] => false
+  | (_, v) :: r => threaded v || threadedAttrs r
+def threadedList : List V → Bool
+  | [] => false
+  | v :: r => threaded v || threadedList r
+end
+
 /-- a set whose tuple members have two or more different headings: a UnionSet with two relation
 buckets, on which UnionSet.Less panics ("comparing uncomparable type rel.Relation") -/
 def twoHeadings (ms : List V) : Bool :=
@@ -743,6 +763,7 @@ def mkPair (id stratum : String) (da db : V) (srcA srcB ctx : String) (kfs : Lis
       payload := [srcA, srcB, if hasCtx then ctx else "", flags] }
   if superimposed da || superimposed db then [mk id "KF-superimposed" (if pos then "eqscdrlgfF" else "eqscd")]
   else if bytesHoles da || bytesHoles db then [mk id "KF-bytes-holes" (if pos then "eqscdfF" else "eqscd")]
+  else if threaded da || threaded db then [mk id "KF-seed-threaded-hash" (if pos then "eqscdrlgfF" else "eqscd")]
   else
     -- the classes of C01/C05/C06 findings (string `with` fallback, duplicated string member, Less panics and
     -- inconsistencies) were dropped when their repairs were merged: `kfs` is no longer consulted
@@ -845,6 +866,19 @@ def corpus : List Case :=
        neg "C02-corpus-31" "{1: {(a: 1, b: 2), (c: 3)}}" "{1: {(a: 1), (b: 2, c: 3)}}"
          (Lit.dict [(.num 1, .set [.tup [("a", .num 1), ("b", .num 2)], .tup [("c", .num 3)]])]).den
          (Lit.dict [(.num 1, .set [.tup [("a", .num 1)], .tup [("b", .num 2), ("c", .num 3)]])]).den ]),
+    -- item/entry tuples thread the seed: differently nested tuples hash alike (open finding)
+    (let n (k : Int) : V := .num k
+     let x : V := V.mkTup [("@", V.mkTup [("@", n 1), ("@item", n 5)]), ("@value", n 7)]
+     let y : V := V.mkTup [("@", n 1), ("@item", V.mkTup [("@", n 5), ("@value", n 7)])]
+     let xs := "(@: (@: 1, @item: 5), @value: 7)"
+     let ys := "(@: 1, @item: (@: 5, @value: 7))"
+     List.flatten [
+       mkPair "C02-corpus-40" "corpus" (V.mkSet [V.mkTup [("@", n 0), ("@item", x)]]) (V.mkSet [V.mkTup [("@", n 0), ("@item", y)]])
+         s!"[{xs}]" s!"[{ys}]" "" [],
+       mkPair "C02-corpus-41" "corpus" (V.mkSet [V.mkTup [("p", x)]]) (V.mkSet [V.mkTup [("p", y)]])
+         ("{(p: " ++ xs ++ ")}") ("{(p: " ++ ys ++ ")}") "" [],
+       mkPair "C02-corpus-42" "corpus" (V.mkTup [("p", x)]) (V.mkTup [("p", y)])
+         ("(p: " ++ xs ++ ")") ("(p: " ++ ys ++ ")") "" [] ]),
     -- C01's finding, classed narrowly
     mkPair "C02-corpus-13" "corpus" (s [97, 98, 99, 100]) (s [97, 98, 99, 100]) "(2\\'cd' | 'ab')" "'abcd'" ""
       ["KF-string-with-fallback"]
